@@ -108,6 +108,34 @@ def scenarios(v):
             for ov in (False, True):
                 add("put_el:%s:%s:%s" % (how, "same" if same else "other", "override" if ov else "plain"), put_el(how, same, ov))
 
+    # C2. an element without a name (unknown to every structure) handed to a segment / field of the given level
+    def put_unknown(parent_kind, dt, how):
+        def fn(lvl):
+            if parent_kind == "segment":
+                p = Segment("PID", version=v, validation_level=lvl)
+                ch = Field(datatype=dt, version=v, validation_level=lvl)
+            else:
+                p = Field("PID_3", version=v, validation_level=lvl)
+                ch = Component(datatype=dt, version=v, validation_level=lvl)
+            if dt != "varies":
+                ch.value = "x"
+            if how == "add":
+                p.add(ch)
+            elif how == "append":
+                p.children.append(ch)
+            elif how == "insert":
+                p.children.insert(0, ch)
+            elif how == "parent":
+                ch.parent = p
+            elif how == "children":
+                p.children = [ch]
+            return p
+        return fn
+    for pk in ("segment", "field"):
+        for dt in ("varies", "ST", "NM"):
+            for how in ("add", "append", "insert", "parent", "children"):
+                add("put_unknown:%s:%s:%s" % (pk, dt, how), put_unknown(pk, dt, how))
+
     # D. whole child lists
     def child_list(kind):
         def fn(lvl):
